@@ -96,6 +96,22 @@ check("C18", "exploration",
       "DESIGN.md §3 C18")
 
 
+check("C12", "exploration",
+      "Project machine: three files whose named targets start present/absent/empty/missing, histories of sync --truth X "
+      "through the real CLI, user edits, restarts, one I/O fault or crash at a rehearsed seam call in about half of the "
+      "histories followed by seeded user recovery. After every fault-free sync: B1 files parse; B2 every target, parsed by "
+      "cdd's matching parser, equals the truth's parse (names, order, types, defaults, descriptions); B3 truth unchanged; "
+      "B4 AST outside the targets unchanged; B5 an identical second sync is byte-identical; B6 (always, also under "
+      "faults) nothing but the listed files is created or written; B7 after recovery one sync re-establishes B1-B4 and "
+      "the next one B5.",
+      "Common representable interface domain; eight listed known findings delimit regions of B2/B5/B1 by narrow "
+      "signatures (existing function/argparse targets are never rewritten; lossy argparse/function default cells; method "
+      "targets emitted at top level; appended targets not in normal form / glued to a last line without newline); cdd's "
+      "own parsers are the reader for B2/B3, as the statement words it.",
+      "deterministic simulation: Hypothesis project histories + rehearsed I/O faults/crashes + recovery and convergence, "
+      "reference comparison via the matching parser", "DESIGN.md §3 C12")
+
+
 def main():
     man = {
         "version": 1,
@@ -130,7 +146,7 @@ def main():
 
 
 PENDING = {k: "check under construction in this session (designed in DESIGN.md §3); not yet claimed"
-           for k in ("C12", "C13", "C16", "C17", "C19")}
+           for k in ("C13", "C16", "C17", "C19")}
 
 if __name__ == "__main__":
     main()
